@@ -96,9 +96,13 @@ func H_C17(tbl, router int) {
 			verifAssert(routable[i] == vContains(set, m), "C17: 405 Allow header does not list exactly the routable methods")
 		}
 		for _, m := range set {
-			verifAssert(vContains(methods, m), "C17: 405 Allow header lists a method no route has")
+			if !vContains(methods, m) {
+				// a listed method that no route declares is only wrong if a request with it is not routable
+				om := h.run(c, vReq{method: m, path: p})
+				verifAssert(om.status != 404 && om.status != 405, "C17: 405 Allow header lists a method that is not routable")
+			}
 		}
-		verifAssert(!routableX, "C17: a method that no route declares is routable but the 405 Allow header does not list it")
+		verifAssert(routableX == vContains(set, mx), "C17: a method that no route declares is routable but the 405 Allow header does not list it (or the reverse)")
 	}
 	// the OPTIONS filter
 	rec := vNewRec()
@@ -133,5 +137,5 @@ func H_C17(tbl, router int) {
 	for i, m := range methods {
 		verifAssert(routable[i] == vContains(set, m), "C17: the OPTIONS filter does not list exactly the routable methods")
 	}
-	verifAssert(!routableX, "C17: a method that no route declares is routable but the OPTIONS filter does not list it")
+	verifAssert(routableX == vContains(set, mx), "C17: a method that no route declares is routable but the OPTIONS filter does not list it (or the reverse)")
 }
